@@ -186,15 +186,18 @@ Definition verify_and_reboot (s : st) : st * list out :=
 (* ---------- header collection and parse (supla_esp_update_recv_cb, first part) ---------- *)
 (* one pass over the bytes of a segment while http_header_matched == 0;
    result: reversed header, matched, number of bytes of the segment consumed *)
+Definition ends_header (rh : list Z) : bool :=       (* ..."\r\n\r\n", newest byte first *)
+  match rh with
+  | a :: b :: c :: d :: _ => (a =? 10) && (b =? 13) && (c =? 10) && (d =? 13)
+  | _ => false
+  end.
 Fixpoint scan (rh : list Z) (seg : list Z) (off : Z) : list Z * Z * Z :=
   match seg with
   | [] => (rh, 0, off)
   | b :: rest =>
     if MAX_HEADER - 1 <=? len rh then (rh, -1, off)
-    else match b :: rh with
-         | 10 :: 13 :: 10 :: 13 :: _ => (b :: rh, 1, off + 1)
-         | rh' => scan rh' rest (off + 1)
-         end
+    else if ends_header (b :: rh) then (b :: rh, 1, off + 1)
+    else scan (b :: rh) rest (off + 1)
   end.
 (* the C string seen by strstr(): header bytes, then the uninitialised rest of the buffer, NUL at [MAX-1] *)
 Fixpoint until_nul (l : list Z) : list Z :=
@@ -314,6 +317,9 @@ Inductive halting_tail : list out -> Prop :=
 | HT_fail : halting_tail [OFlag FLAG_IDLE; OFlag FLAG_IDLE; ORestart]                    (* MAX_FLASH_ATTEMPTS failures *)
 | HT_fail_idle : halting_tail ([OFlag FLAG_IDLE; OFlag FLAG_IDLE; ORestart] ++ [OFlag FLAG_IDLE; ORestart])
 | HT_fail_fault : halting_tail ([OFlag FLAG_IDLE; OFlag FLAG_IDLE; ORestart] ++ [OFault]).
+(* segments the receive callback looks at (non-empty, length fits the 16-bit parameter) and the byte stream they form *)
+Definition eff (b : list Z) : bool := negb ((len b =? 0) || (65535 <? len b)).
+Definition stream_of (segs : list (list Z)) : list Z := concat (map (fun b => if eff b then b else []) segs).
 Definition is_digit (c : Z) : Prop := 48 <= c <= 57.
 Fixpoint dec (ds : list Z) (acc : Z) : Z := match ds with [] => acc | d :: t => dec t (acc * 10 + (d - 48)) end.
 (* where the SDK keeps the two firmware images (ESP8266 non-OS SDK flash maps) *)
